@@ -83,7 +83,12 @@ type Item struct {
 	// contains {{ }} literally); leaf elements without v-for / chain membership only. v-pre on an
 	// ANCESTOR of a marked element is not generated: nothing below v-pre is processed, and the
 	// statement does not say what an unprocessed v-once means.
-	Pre  bool   `json:"pre,omitempty"`
+	Pre bool `json:"pre,omitempty"`
+	// once: an ordinary attribute that looks like an identity (index into idAttrs; 0 = none). The
+	// generators give the SAME attribute and value to different marked elements: two <script v-once
+	// src="/assets/js/component.js"> in different places are still distinct elements; only the
+	// data-m text tells them apart.
+	At   int    `json:"at,omitempty"`
 	N    int    `json:"n,omitempty"`
 	Cond bool   `json:"cond,omitempty"`
 	Eq   int    `json:"eq,omitempty"`
@@ -202,6 +207,9 @@ var loopLens = []int{0, 1, 2, 2, 3, 3}
 // element alike; the model does not look at Sp.
 var spellings = []string{`v-once`, `V-Once`, `V-ONCE`, `v-Once`, `v-once=""`}
 
+// idAttrs are attributes that look like identities; the value is the same wherever one is used.
+var idAttrs = []string{``, `src="/assets/js/component.js"`, `id="once"`, `href="/assets/css/site.css"`, `data-key="k1"`, `name="once"`, `class="once" title="once"`}
+
 var leafTags = []string{"style", "b", "script", "span", "i"}
 var boxTags = []string{"div", "section"}
 
@@ -246,6 +254,13 @@ func src(items []Item, sb *strings.Builder) {
 			}
 			if it.Self {
 				attrs += fmt.Sprintf(` v-for="x in n%d"`, it.N)
+			}
+			if it.At > 0 && it.Ch != "tpl" {
+				if it.M%2 == 0 {
+					attrs = idAttrs[it.At%len(idAttrs)] + " " + attrs
+				} else {
+					attrs += " " + idAttrs[it.At%len(idAttrs)]
+				}
 			}
 			if it.Pre {
 				if it.M%3 == 0 {
@@ -428,6 +443,9 @@ func validate(c Case) error {
 				}
 				if it.Self && (it.N < 0 || it.N > 3) {
 					return fmt.Errorf("bad n")
+				}
+				if it.At < 0 || it.At >= len(idAttrs) || (it.At > 0 && it.Ch == "tpl") {
+					return fmt.Errorf("o%d: bad attribute %d", it.M, it.At)
 				}
 				if it.Pre && (it.Self || it.Ch != "" || isBox(it.Tag)) {
 					return fmt.Errorf("o%d: bad v-pre", it.M)
@@ -1012,6 +1030,7 @@ func countOnce(items []Item) int {
 func classify(c Case) (bool, []string) {
 	set := map[string]bool{}
 	distinct := 0
+	attrUse := map[int]int{}
 	var walk func(items []Item, kind string, inLoop, inOnce, underIf bool)
 	walk = func(items []Item, kind string, inLoop, inOnce, underIf bool) {
 		for _, it := range items {
@@ -1032,6 +1051,9 @@ func classify(c Case) (bool, []string) {
 				}
 				if it.Self {
 					set[fmt.Sprintf("once+for-same-element n=%d", it.N)] = true
+				}
+				if it.At > 0 {
+					attrUse[it.At]++
 				}
 				if it.Pre {
 					set["once+v-pre-same-element"] = true
@@ -1133,6 +1155,13 @@ func classify(c Case) (bool, []string) {
 		walk(l.Head, "layout-head", false, false, false)
 		walk(l.Before, "layout", false, false, false)
 		walk(l.After, "layout", false, false, false)
+	}
+	for at, n := range attrUse {
+		name := strings.SplitN(idAttrs[at], "=", 2)[0]
+		set["identity-like-attr="+name] = true
+		if n >= 2 {
+			set["same "+name+" value on >=2 distinct marked elements"] = true
+		}
 	}
 	d := distinct
 	if d > 4 {
@@ -1263,6 +1292,7 @@ func classify(c Case) (bool, []string) {
 type uni struct {
 	fill  map[string]bool
 	sp    int // spelling of the first marked element; the following ones take the next spellings
+	at    int // identity-like attribute that EVERY marked element of the site carries (see idAttrs)
 	pre   int // the pre-th filled slot (1-based) also carries v-pre when its tag is a leaf
 	next  int
 	kinds int
@@ -1278,6 +1308,7 @@ func (u *uni) slot(name string, tags []string) []Item {
 	u.kinds++
 	it := Item{K: "once", M: u.id(), Tag: tags[u.kinds%len(tags)], Sp: (u.sp + u.kinds - 1) % len(spellings)}
 	it.Pre = u.kinds == u.pre && !isBox(it.Tag)
+	it.At = u.at
 	return []Item{it}
 }
 
@@ -1287,6 +1318,9 @@ func (u *uni) slotCh(name string, tags []string, ch string, cond bool, eq int) [
 	for i := range its {
 		its[i].Ch, its[i].Cond, its[i].Eq = ch, cond, eq
 		its[i].Pre = false
+		if ch == "tpl" {
+			its[i].At = 0
+		}
 	}
 	return its
 }
@@ -1303,6 +1337,7 @@ type uparams struct {
 	chain      string // none | l1 | l1-l2 | base
 	sp         int    // spelling of the first marked element (see uni.sp)
 	pre        int    // which filled slot also carries v-pre (see uni.pre)
+	at         int    // identity-like attribute on every marked element (see uni.at)
 }
 
 func universeSlots(p uparams) []string {
@@ -1326,7 +1361,7 @@ func universeSlots(p uparams) []string {
 }
 
 func universe(fill []string, p uparams) Case {
-	u := &uni{fill: map[string]bool{}, sp: p.sp, pre: p.pre}
+	u := &uni{fill: map[string]bool{}, sp: p.sp, pre: p.pre, at: p.at}
 	for _, f := range fill {
 		u.fill[f] = true
 	}
@@ -1342,7 +1377,7 @@ func universe(fill []string, p uparams) Case {
 	P = append(P, inc("B"), inc("TA")) // the twin file of A, after A itself
 	if u.fill["s2"] {
 		u.kinds++
-		P = append(P, Item{K: "once", M: u.id(), Tag: leafTags[u.kinds%len(leafTags)], Self: true, N: p.nA, Sp: (u.sp + u.kinds - 1) % len(spellings)})
+		P = append(P, Item{K: "once", M: u.id(), Tag: leafTags[u.kinds%len(leafTags)], Self: true, N: p.nA, Sp: (u.sp + u.kinds - 1) % len(spellings), At: u.at})
 	}
 	P = append(P, Item{K: "for", M: u.id(), N: 3, Kids: []Item{{K: "if", M: u.id(), Eq: 2, Kids: u.slot("s3", all)}}})
 	P = append(P, Item{K: "div", M: u.id(), Kids: u.slot("s4", all)})
@@ -1458,6 +1493,7 @@ type gen struct {
 	budget int // marked elements still to place
 	comps  []string
 	twins  []string // components that have a twin file
+	at     int      // the identity-like attribute of this site (0: none)
 	// inContent > 0 while drawing supplied slot content or fallback content (no <slot>, no x==k there)
 	inContent int
 	namedOK   bool // named slot content only in sites without layouts
@@ -1533,6 +1569,9 @@ func (g *gen) items(label string, comp, depth int, inLoop bool, max int) []Item 
 			if !it.Self && it.Ch == "" && !isBox(it.Tag) && rapid.IntRange(0, 4).Draw(g.t, l+"pre") == 0 {
 				it.Pre = true
 			}
+			if g.at > 0 && it.Ch != "tpl" && rapid.IntRange(0, 3).Draw(g.t, l+"at") > 0 {
+				it.At = g.at
+			}
 			out = append(out, it)
 		case "for":
 			it := Item{K: "for", M: g.id(), N: rapid.SampledFrom(loopLens).Draw(g.t, l+"n")}
@@ -1589,6 +1628,7 @@ func genCase() func(t *rapid.T) Case {
 	return func(t *rapid.T) Case {
 		g := &gen{t: t}
 		g.budget = rapid.IntRange(1, run.Pick(4, 6)).Draw(t, "once")
+		g.at = rapid.SampledFrom([]int{0, 1, 1, 2, 3, 4, 5, 6}).Draw(t, "idattr")
 		nComps := rapid.IntRange(0, 4).Draw(t, "comps")
 		g.comps = compOrder[:nComps]
 		c := Case{Comps: map[string][]Item{}, Layouts: map[string]Layout{}}
@@ -1631,7 +1671,7 @@ func genCase() func(t *rapid.T) Case {
 				l.Doc = true
 				if g.budget > 0 && rapid.Bool().Draw(t, "head") {
 					g.budget--
-					l.Head = []Item{{K: "once", M: g.id(), Tag: rapid.SampledFrom([]string{"style", "script"}).Draw(t, "headtag"), Sp: rapid.IntRange(0, len(spellings)-1).Draw(t, "headsp")}}
+					l.Head = []Item{{K: "once", M: g.id(), Tag: rapid.SampledFrom([]string{"style", "script"}).Draw(t, "headtag"), Sp: rapid.IntRange(0, len(spellings)-1).Draw(t, "headsp"), At: g.at}}
 				}
 			}
 			g.inLayout = true
@@ -1644,7 +1684,7 @@ func genCase() func(t *rapid.T) Case {
 			l := Layout{Doc: rapid.Bool().Draw(t, "basedoc")}
 			if l.Doc && g.budget > 0 && rapid.Bool().Draw(t, "basehead") {
 				g.budget--
-				l.Head = []Item{{K: "once", M: g.id(), Tag: rapid.SampledFrom([]string{"style", "script"}).Draw(t, "baseheadtag"), Sp: rapid.IntRange(0, len(spellings)-1).Draw(t, "baseheadsp")}}
+				l.Head = []Item{{K: "once", M: g.id(), Tag: rapid.SampledFrom([]string{"style", "script"}).Draw(t, "baseheadtag"), Sp: rapid.IntRange(0, len(spellings)-1).Draw(t, "baseheadsp"), At: g.at}}
 			}
 			g.inLayout = true
 			l.After = g.items("base", -1, 1, false, 3)
@@ -1660,7 +1700,7 @@ func genCase() func(t *rapid.T) Case {
 		}
 		if g.budget > 0 {
 			// the site always has a marked element: spend what is left at the end of page 0
-			c.Pages[0].Items = append(c.Pages[0].Items, Item{K: "once", M: g.id(), Tag: rapid.SampledFrom(leafTags).Draw(t, "lasttag")})
+			c.Pages[0].Items = append(c.Pages[0].Items, Item{K: "once", M: g.id(), Tag: rapid.SampledFrom(leafTags).Draw(t, "lasttag"), At: g.at})
 		}
 		// every component is included from somewhere (otherwise its marked elements are dead weight)
 		used := map[string]bool{}
@@ -1730,7 +1770,7 @@ func TestProp(t *testing.T) {
 	shard, shards := run.Shard()
 	// exhaustive: every choice of 1..k slots of the universe site x parameter sets x entry histories
 	params := []uparams{
-		{2, 2, 2, "none", 0, 1}, {0, 1, 3, "l1", 1, 2}, {3, 0, 1, "l1-l2", 2, 1}, {1, 3, 2, "base", 3, 2},
+		{2, 2, 2, "none", 0, 1, 1}, {0, 1, 3, "l1", 1, 2, 2}, {3, 0, 1, "l1-l2", 2, 1, 3}, {1, 3, 2, "base", 3, 2, 1},
 	}
 	maxFill := 2
 	if run.Thorough() {
@@ -1740,7 +1780,7 @@ func TestProp(t *testing.T) {
 		for i, ch := range []string{"none", "l1", "l1-l2", "base"} {
 			// two of the four loop/include settings per chain, so that each setting meets two chains
 			for _, n := range [][3]int{ns[i%4], ns[(i+1)%4]} {
-				params = append(params, uparams{n[0], n[1], n[2], ch, len(params) % len(spellings), 1 + len(params)%3})
+				params = append(params, uparams{n[0], n[1], n[2], ch, len(params) % len(spellings), 1 + len(params)%3, 1 + len(params)%(len(idAttrs)-1)})
 			}
 		}
 	}
